@@ -52,7 +52,7 @@ impl<R: Read + Seek> ReadBox<&mut R> for MvexBox {
             // Get box header.
             let header = BoxHeader::read(reader)?;
             let BoxHeader { name, size: s } = header;
-            if s > size {
+            if s > size || s < HEADER_SIZE {
                 return Err(Error::InvalidData(
                     "mvex box contains a box with a larger size than it",
                 ));
